@@ -194,11 +194,12 @@ PROPS = {
         rule=("owned mode: 2..5 writers with payloads of 1..4000 bytes (one to four frames) and a choice list of 4n..6n entries; free mode: repetitions with 2..8 writers x 3..7 writes each, every second one with a keep-alive ticker. "
               "Non-trivial: at least 2 writers had entered the write path before the first of them completed. Distinct by (payload lengths, choice list)."),
         assumptions=["writers use Connection.Write (the path of responses, notifications and keep-alives)"],
-        essential_classes=["writers=2", "writers=5", "multi-frame-payload", "payload>8192", "free:keep-alive", "regress", "transport:5-notifiers+requests"],
+        essential_classes=["writers=2", "writers=5", "multi-frame-payload", "payload>8192", "free:keep-alive", "regress", "transport:5-notifiers+requests", "session-switch:two-writers"],
         jobs=[
             dict(test="TestC08Regress", kind="plain"),
             dict(test="TestC08Owned", kind="rapid", checks={Q: 40, T: 1200}, shards=16),
             dict(test="TestC08Free", kind="plain", shards={Q: 4, T: 16}, env={"VERIF_C08_REPS": {Q: 40, T: 400}}),
+            dict(test="TestC08Switch", kind="plain", shards={Q: 4, T: 16}, env={"VERIF_C08_SREPS": {Q: 25000, T: 150000}}),
             dict(test="TestC08Transport", kind="plain", shards={Q: 2, T: 8}, env={"VERIF_C08_TREPS": {Q: 2, T: 8}}),
             dict(test="TestC08Free", kind="plain", race=True, tiers=[T], shards=4, env={"VERIF_C08_REPS": {T: 300}}),
         ],
@@ -295,7 +296,7 @@ PROPS = {
         level_note="Trusted: refctl; the canary/keyword disclosure scan. /identify is unprotected by specification and not treated as protected. Reuse of a reset verified connection's source address by a new connection is generated (a race the harness provokes but does not own). For sealed requests the harness waits 120 ms of silence to conclude that nothing was served (a miss, never an alarm, if the accessory answered later).",
         rule=("rapid state machine, about 30 actions per history over 11 action kinds; protected requests drawn from 12 request shapes. Non-trivial: at least one attacker request to a protected endpoint issued while the legitimate controller is verified on another connection. Distinct by history."),
         assumptions=["the attacker knows neither the setup code nor a paired long-term secret key"],
-        essential_classes=["/accessories/plaintext", "/characteristics:get/plaintext", "/characteristics:put/plaintext", "/characteristics:subscribe/plaintext", "/pairings:add/plaintext", "/pairings:remove/plaintext", "/resource/plaintext", "legit-served", "app-change", "pair-verify-forged-finish", "pair-setup-fragment", "replayed-sniffed-verify", "flood-during-legit-verify", "source-address-reuse", "ciphertext-after-many-failed-verifies"],
+        essential_classes=["/accessories/plaintext", "/characteristics:get/plaintext", "/characteristics:put/plaintext", "/characteristics:subscribe/plaintext", "/pairings:add/plaintext", "/pairings:remove/plaintext", "/resource/plaintext", "legit-served", "app-change", "pair-verify-forged-finish", "pair-setup-fragment", "replayed-sniffed-verify", "flood-during-legit-verify", "source-address-reuse", "ciphertext-after-many-failed-verifies", "probe-after-aborted-large-transfer"],
         jobs=[
             dict(test="TestC01Prop", kind="rapid", checks={Q: 8, T: 1200}, shards=16),
         ],
